@@ -86,7 +86,7 @@ func TestVerifC13(t *testing.T) {
 		}
 	})
 
-	n := r.N(6000, 400000)
+	n := r.N(6000, 240000)
 	r.Cases("hist", n, func(i int, id string, rng *vk.Rand) {
 		cfg := vfGenCfg(rng, []string{"mutex", "mutex", "bool"}, []string{CacheTypeRanked, CacheTypeLRU, CacheTypeNone}, 4)
 		rows := []uint64{3, 5, 7, 100}
